@@ -6,6 +6,7 @@ D=$1; shift
 cd /repo && git status --short | grep -q . && { echo "/repo is not clean"; exit 2; }
 git -C /repo apply "$D/patch.diff" || { echo "patch does not apply"; exit 2; }
 OUT="$D/check_results.txt"; : > "$OUT"
+export VERIF_EVIDENCE_DIR=/tmp/mutant-evidence.$$   # evidence of runs on a changed tree is not evidence
 for P in "$@"; do
   ( cd /verif && timeout 900 bin/check $P ${TIER:-quick} ) > /tmp/mutant.$$.log 2>&1
   rc=$?
@@ -13,7 +14,7 @@ for P in "$@"; do
   grep -A1 "^VIOLATION\|^KNOWN-FINDING\|^INFRA-ERROR\|BUILD-ERROR\|instrumentation failed" /tmp/mutant.$$.log | cut -c1-400 | head -12 | tee -a "$OUT"
   tail -1 /tmp/mutant.$$.log | cut -c1-250 >> "$OUT"
 done
-rm -f /tmp/mutant.$$.log
+rm -f /tmp/mutant.$$.log; rm -rf /tmp/mutant-evidence.$$
 git -C /repo apply -R "$D/patch.diff"
 git -C /repo status --short | grep -q . && { echo "WARNING: /repo not clean after revert"; git -C /repo status --short; }
 rm -f /verif/replays/*.json
